@@ -208,6 +208,8 @@ def rule_C01(env):
             res.add("R01.e", "can_emit/Stop/true", "can_emit(Stop) can be true: STOP could be chosen inside the body", PV.op_loc(env, "::can_emit"))
     ncl, nsteps = cleanup_checks(env, res)
     ngen = generate_structure_checks(env, res)
+    PV.proto_invariant_premise(env, res, "C01")
+    PV.default_flags_premise(env, res, ["unsafe_mutations"], "a generator nobody asked unsafe mutations of must be in safe mode")
     # R01.f: in safe mode no Mutator::post_process writes to the output
     table = mutsum.MutatorTable(env.prog)
     mf = H.models_factory(env.prog, env.ctx, False)
